@@ -43,11 +43,12 @@ if sys.argv[1] == 'build':
     root = sys.argv[2]
     tasks = []
     for a in sorted(os.listdir(root)):
-        rd = os.path.join(root, a, '_refac')
-        if os.path.isdir(rd):
+        for sub in ('_refac', '_seed'):
+          rd = os.path.join(root, a, sub)
+          if os.path.isdir(rd):
             for n in sorted(os.listdir(rd)):
                 pf = os.path.join(rd, n, 'patch.diff')
-                if os.path.exists(pf):
+                if os.path.exists(pf) and not os.path.exists(os.path.join(VF, '%s-%s.json' % (a, n))):
                     tasks.append(('%s-%s' % (a, n), pf))
     with ProcessPoolExecutor(16) as ex:
         for name, st in ex.map(build_one, tasks):
